@@ -34,15 +34,21 @@ TRUSTED = ['Coq 8.16.1 kernel (coqc; coqchk in the thorough tier)',
            'which argument belongs to which sample (fftfreq, axis order, extent product)',
            'numpy: np.fft.fft2/ifft2 contract (defining sums), np.fft.fftfreq, np.meshgrid, np.outer (modelled; observed through the tie)',
            'parametricity: the theorem instance (any ring / Coquelicot C) and the executed instance (group ring) are the same Gallina term']
-ASSUMPTIONS = ['non-negative, non-zero images (integer samples), 2..12 samples per axis',
+ASSUMPTIONS = ['non-negative, non-zero images (integer samples); 2..12 samples per axis run through the model, sides 13, 17, 19, '
+               '23 (and 26, 29, 31) through the model only for 1 x n / n x 1 / small x n shapes and otherwise through the '
+               'direct oracle alone',
                'extent parameters, pixel scales, oversampling factors and angles are floats given as small rationals; '
                'comparison tolerance 1e-9*(1+max|value|)',
                'equality with the circular convolution is checked where that convolution is non-negative, to within the '
-               'bound on the unpaired Nyquist samples of even axes']
+               'bound on the unpaired Nyquist samples of even axes',
+               'every case starts from a freshly imported lentil (empty module-level caches)']
 RULE = ('random pixel/jitter/smear cases: shapes 2..12 x 2..12 with every aspect ratio (thorough: every shape at least once per '
-        'blur), images sparse (point sources) or background+detail, extents 0..3 samples, angles incl. multiples of 45 deg and '
-        'negative, pixel scales and oversampling factors, circular translations (all of them for small images); '
-        'non-trivial = extent > 0 on a non-constant image')
+        'blur) plus shapes with a side that is not 2-3-5-7-11-smooth (13, 17, 19, 23, 26, 29, 31) carrying a bright source in a '
+        'corner; images sparse (point sources) or background+detail, as float64 / float32 / int64 / uint8 / bool arrays or '
+        'nested lists; whole-number parameters as ints or floats; extents 0..3 samples, angles incl. 0, multiples of 45 deg '
+        'and negative, pixel scales and oversampling factors, circular translations (all of them for small images), the call '
+        'repeated after the others; call histories of 2-4 blurs on one shape with one argument varied at a time, each '
+        'compared with the same call made first in a fresh interpreter state; non-trivial = extent > 0 on a non-constant image')
 
 TOL = 1e-9
 
@@ -102,12 +108,29 @@ ANGLES = ['0', '30', '45', '90', '135', '180', '270', '-60', '17', '222', '57/2'
 UNITS = [('1', '1'), ('1', '2'), ('1', '3'), ('1/200000', '1'), ('1/200000', '5'), ('13/2', '2'), ('3/8', '4'), ('5', '1')]
 
 
-def mk_case(rng, op, m, n, tier, allshifts_max):
-    kind = rng.choice(['sparse', 'background', 'background', 'dense'])
-    c = {'op': op, 'img': rnd_img(rng, m, n, kind), 'kind': kind}
-    e = rng.choice(EXTENTS)
+DTYPES = ['int64', 'uint8', 'float32', 'bool', 'list']
+# side lengths that are not 2-3-5-7-11-smooth ("slow" FFT lengths): cheap enough for the model ...
+PRIME_MODEL = [(1, 13), (13, 1), (2, 13), (13, 2), (1, 17), (17, 1), (1, 19), (19, 1), (1, 23), (23, 1), (3, 13), (2, 17)]
+# ... and oracle-only (roll commutation, circular convolution, totals, identity; no model run)
+PRIME_ORACLE = [(13, 17), (17, 13), (19, 12), (12, 19), (23, 23), (13, 13), (5, 13), (17, 4), (4, 23), (19, 19), (23, 3),
+                (26, 5), (7, 29), (31, 2), (13, 16)]
+
+
+def corner_img(rng, m, n):
+    """faint background and a bright source in a corner, so that the blur wraps around the frame edges"""
+    img = [[rng.randint(1, 3) for _ in range(n)] for _ in range(m)]
+    r, c_ = rng.choice([(0, 0), (0, n - 1), (m - 1, 0), (m - 1, n - 1)])
+    img[r][c_] = rng.randint(40, 90)
+    return img
+
+
+def mk_case(rng, op, m, n, tier, allshifts_max, kind=None, variants=True):
+    kind = kind or rng.choice(['sparse', 'background', 'background', 'dense'])
+    c = {'op': op, 'img': corner_img(rng, m, n) if kind == 'corner' else rnd_img(rng, m, n, kind), 'kind': kind}
+    e = rng.choice(['1', '5/4', '3/2', '2', '3']) if kind == 'corner' else rng.choice(EXTENTS)
     if op == 'pixel':
-        c['os'] = rng.choice(['0', '1', '2', '3', '1', '2', '3/2', '5/2', '1/2'])
+        c['os'] = (rng.choice(['1', '2', '3', '3/2', '5/2']) if kind == 'corner'
+                   else rng.choice(['0', '1', '2', '3', '1', '2', '3/2', '5/2', '1/2']))
     else:
         ps, os_ = rng.choice(UNITS)
         # scale in physical units such that (scale/ps)*os = e samples
@@ -119,8 +142,72 @@ def mk_case(rng, op, m, n, tier, allshifts_max):
     if m * n <= allshifts_max:
         c['shifts'] = [[a, b] for a in range(m) for b in range(n)]
     else:
-        c['shifts'] = [[rng.randint(-m, 2 * m), rng.randint(-n, 2 * n)], [rng.randrange(m), 0], [0, rng.randrange(1, n)]]
+        c['shifts'] = [[rng.randint(-m, 2 * m), rng.randint(-n, 2 * n)], [rng.randrange(m), 0],
+                       [0, rng.randrange(1, n) if n > 1 else 0]]
+    # argument forms: the image as another dtype / a nested list, whole-number parameters as Python ints
+    if variants and rng.random() < 0.3:
+        dt = rng.choice(DTYPES)
+        if dt == 'bool':
+            c['img'] = [[1 if v else 0 for v in row] for row in c['img']]
+        c['dtype'] = dt
+    if variants and rng.random() < 0.3:
+        c['intargs'] = True
     return c
+
+
+def rnd_call(rng, op):
+    k = {'op': op}
+    if op == 'pixel':
+        k['os'] = rng.choice(['1', '2', '3', '3/2'])
+    else:
+        ps, os_ = rng.choice(UNITS)
+        k['ext'] = str(Fraction(rng.choice(['1/2', '1', '3/2', '2', '3'])) * Fraction(ps) / Fraction(os_))
+        k['ps'], k['os'] = ps, os_
+        if op == 'smear':
+            k['angle'] = rng.choice(ANGLES)
+    return k
+
+
+def mk_history(rng, m, n):
+    """2-4 calls on frames of one shape in one interpreter state, one argument varied at a time; every call is
+    compared with the same call made first in a fresh state (and with the reference convolution)"""
+    t = rng.randrange(6)
+    if t == 0:      # smear, then jitter on the same shape, the same smear again, another angle
+        s1 = rnd_call(rng, 'smear')
+        s2 = dict(s1, angle=rng.choice([a for a in ANGLES if a != s1['angle']]))
+        calls = [s1, rnd_call(rng, 'jitter'), dict(s1), s2]
+    elif t == 1:    # jitter with two extents, then the first again
+        j1 = rnd_call(rng, 'jitter')
+        j2 = dict(j1, ext=str(Fraction(j1['ext']) * 2 + Fraction(j1['ps']) / 3))
+        calls = [j1, j2, dict(j1)]
+    elif t == 2:    # pixel with two oversampling factors
+        p1 = rnd_call(rng, 'pixel')
+        p2 = dict(p1, os=rng.choice([o for o in ['1', '2', '3', '5/2'] if o != p1['os']]))
+        calls = [p1, p2, dict(p1)]
+    elif t == 3:    # same extent in samples, different pixel scale / oversampling
+        j1 = rnd_call(rng, rng.choice(['jitter', 'smear']))
+        e = Fraction(j1['ext']) / Fraction(j1['ps']) * Fraction(j1['os'])
+        ps, os_ = rng.choice(UNITS)
+        j2 = dict(j1, ext=str(e * Fraction(ps) / Fraction(os_)), ps=ps, os=os_)
+        j3 = dict(j1, os=str(Fraction(j1['os']) * 2))
+        calls = [j1, j2, j3, dict(j1)]
+    elif t == 4:    # smear distance varied, angle fixed
+        s1 = rnd_call(rng, 'smear')
+        s2 = dict(s1, ext=str(Fraction(s1['ext']) * 3 / 2 + Fraction(s1['ps']) / 4))
+        calls = [s1, s2, dict(s1)]
+    else:
+        calls = [rnd_call(rng, rng.choice(['pixel', 'jitter', 'smear'])) for _ in range(rng.randint(2, 4))]
+    c = {'op': 'history', 'img': rnd_img(rng, m, n, rng.choice(['background', 'dense', 'sparse'])), 'kind': 'history',
+         'calls': calls}
+    if rng.random() < 0.3:
+        dt = rng.choice(DTYPES)
+        if dt == 'bool':
+            c['img'] = [[1 if v else 0 for v in row] for row in c['img']]
+        c['dtype'] = dt
+    return c
+
+
+HIST_SHAPES = [(3, 5), (5, 7), (6, 9), (4, 4), (8, 3), (2, 11), (13, 4), (7, 12), (15, 21), (1, 9)]
 
 
 def generate(rng, tier):
@@ -134,13 +221,29 @@ def generate(rng, tier):
             for op in ops:
                 out.append(mk_case(rng, op, m, n, tier, allshifts))
         out.append(mk_case(rng, 'jitter', 12, 12, tier, allshifts))
+        # slow FFT lengths (13, 17, 19, 23, ...) on at least one axis, bright source in a corner
+        for op in ops:
+            for (m, n) in rng.sample(PRIME_MODEL, 4):
+                out.append(mk_case(rng, op, m, n, tier, 0, kind='corner', variants=False))
+            for (m, n) in rng.sample(PRIME_ORACLE, 5):
+                out.append(dict(mk_case(rng, op, m, n, tier, 0, kind='corner', variants=False), nomodel=True))
+        for _ in range(12):
+            out.append(mk_history(rng, *rng.choice(HIST_SHAPES)))
     else:
         shapes = [s for s in SHAPES_ALL if cost(*s) <= 60000]
-        ncase, allshifts = 900, 25
+        ncase, allshifts = 1000, 25
         # every shape 2..12 x 2..12 once per blur
         for (m, n) in SHAPES_ALL:
             for op in ops:
                 out.append(mk_case(rng, op, m, n, tier, allshifts))
+        for op in ops:
+            for (m, n) in PRIME_MODEL:
+                out.append(mk_case(rng, op, m, n, tier, allshifts, kind='corner', variants=False))
+            for (m, n) in PRIME_ORACLE:
+                for _ in range(2):
+                    out.append(dict(mk_case(rng, op, m, n, tier, 0, kind='corner', variants=False), nomodel=True))
+        for _ in range(80):
+            out.append(mk_history(rng, *rng.choice(HIST_SHAPES)))
     while len(out) < ncase:
         m, n = rng.choice(shapes)
         out.append(mk_case(rng, rng.choice(ops), m, n, tier, allshifts))
@@ -152,25 +255,39 @@ def generate(rng, tier):
 def classify(c):
     m, n = shape_of(c)
     asp = 'square' if m == n else ('tall' if m > n else 'wide')
+    if c['op'] == 'history':
+        return 'history/' + '-'.join(k['op'] for k in c['calls'])
     ext = c['os'] if c['op'] == 'pixel' else c['ext']
-    return f"{c['op']}/{asp}/{c.get('kind', 'corpus')}/{'zero-extent' if Fraction(ext) == 0 else 'blur'}"
+    tag = f"{c['op']}/{asp}/{c.get('kind', 'corpus')}/{'zero-extent' if Fraction(ext) == 0 else 'blur'}"
+    if c.get('nomodel'):
+        tag += '/oracle-only'
+    if c.get('dtype'):
+        tag += '/' + c['dtype']
+    if c.get('intargs'):
+        tag += '/int-args'
+    return tag
 
 
 def nontrivial(c):
-    ext = c['os'] if c['op'] == 'pixel' else c['ext']
     flat = [v for r in c['img'] for v in r]
+    if c['op'] == 'history':
+        return len(set(flat)) > 1
+    ext = c['os'] if c['op'] == 'pixel' else c['ext']
     return Fraction(ext) != 0 and len(set(flat)) > 1
 
 
 # ------------------------------------------------------------------ parameters as the implementation sees them
 def params(c):
     """floats handed to lentil, and their exact rational values handed to the model"""
-    p = {'os': fl(c['os'])}
+    def num(s):
+        f = Fraction(s)
+        return int(f) if (c.get('intargs') and f.denominator == 1) else float(f)    # same value, int or float
+    p = {'os': num(c['os'])}
     if c['op'] != 'pixel':
-        p['ext'] = fl(c['ext'])
-        p['ps'] = fl(c['ps'])
+        p['ext'] = num(c['ext'])
+        p['ps'] = num(c['ps'])
     if c['op'] == 'smear':
-        p['angle'] = fl(c['angle'])
+        p['angle'] = num(c['angle'])
         a = np.radians(p['angle'])
         p['sn'] = float(np.sin(a))
         p['cs'] = float(np.cos(a))
@@ -227,6 +344,8 @@ def enc_table(t):
 
 
 def encode(c):
+    if c.get('nomodel') or c['op'] == 'history':
+        return None             # decided by the oracle alone (shapes too expensive for the group ring; call histories)
     m, n = shape_of(c)
     L = lcm(m, n)
     p = params(c)
@@ -293,25 +412,75 @@ def call(lentil, c, img, p):
     return lentil.smear(img, p['ext'], angle=p['angle'], pixelscale=p['ps'], oversample=p['os'])
 
 
+def fresh_lentil():
+    """lentil imported anew: every module-level cache / memoised grid of the package starts empty, so the result of a
+    case never depends on the calls made for earlier cases (replays are self-contained)"""
+    import sys
+    for k in list(sys.modules):
+        if k == 'lentil' or k.startswith('lentil.'):
+            del sys.modules[k]
+    return C.import_lentil()
+
+
+def mk_img(c, arr=None):
+    """the image in the form the case asks for: float64 (default), another dtype, or a nested list"""
+    a = np.array(c['img'], dtype=float) if arr is None else arr
+    dt = c.get('dtype', 'float64')
+    if dt == 'list':
+        return [[float(v) for v in row] for row in a.tolist()]
+    return a.astype({'float64': np.float64, 'float32': np.float32, 'int64': np.int64, 'uint8': np.uint8,
+                     'bool': np.bool_}[dt])
+
+
+def as_result(out):
+    o = np.asarray(out)
+    return {'out': o.tolist(), 'dtype_kind': o.dtype.kind}
+
+
+def run_history(c):
+    calls = [dict(k, intargs=c.get('intargs', False)) for k in c['calls']]
+    lentil = fresh_lentil()
+    img = mk_img(c)                      # ONE object handed to every call of the history
+    seq = []
+    for k in calls:
+        try:
+            seq.append(as_result(call(lentil, k, img, params(k))))
+        except Exception as e:
+            seq.append({'err': type(e).__name__})
+    alone = []
+    for k in calls:                      # the same call made first in a fresh state
+        lentil = fresh_lentil()
+        try:
+            alone.append(as_result(call(lentil, k, mk_img(c), params(k))))
+        except Exception as e:
+            alone.append({'err': type(e).__name__})
+    return {'seq': seq, 'alone': alone}
+
+
 def run_impl(c):
-    lentil = C.import_lentil()
+    if c['op'] == 'history':
+        return run_history(c)
+    lentil = fresh_lentil()
     img = np.array(c['img'], dtype=float)
     p = params(c)
     res = {}
     try:
-        out = call(lentil, c, img.copy(), p)
-        res['out'] = np.asarray(out).tolist()
-        res['dtype_kind'] = np.asarray(out).dtype.kind
+        res.update(as_result(call(lentil, c, mk_img(c), p)))
     except Exception as e:
         return {'err': type(e).__name__}
     # circular translations of the input
     rolled = []
     for s in c.get('shifts', []):
         try:
-            rolled.append(np.asarray(call(lentil, c, np.roll(img, tuple(s), axis=(0, 1)), p)).tolist())
+            rolled.append(np.asarray(call(lentil, c, mk_img(c, np.roll(img, tuple(s), axis=(0, 1))), p)).tolist())
         except Exception as e:
             rolled.append({'err': type(e).__name__})
     res['rolled'] = rolled
+    # the same call again after the others: a fixed convolution does not depend on the calls made before
+    try:
+        res['again'] = np.asarray(call(lentil, c, mk_img(c), p)).tolist()
+    except Exception as e:
+        res['again'] = {'err': type(e).__name__}
     # zero extent
     p0 = dict(p)
     if c['op'] == 'pixel':
@@ -319,7 +488,7 @@ def run_impl(c):
     else:
         p0['ext'] = 0.0
     try:
-        res['zero'] = np.asarray(call(lentil, c, img.copy(), p0)).tolist()
+        res['zero'] = np.asarray(call(lentil, c, mk_img(c), p0)).tolist()
     except Exception as e:
         res['zero'] = {'err': type(e).__name__}
     # the same extent expressed in samples
@@ -329,15 +498,15 @@ def run_impl(c):
         ps_['ps'] = 1
         ps_['os'] = 1
         try:
-            res['samples'] = np.asarray(call(lentil, c, img.copy(), ps_)).tolist()
+            res['samples'] = np.asarray(call(lentil, c, mk_img(c), ps_)).tolist()
         except Exception as e:
             res['samples'] = {'err': type(e).__name__}
     else:
         o = Fraction(c['os'])
         if o.denominator == 1 and o >= 1:
             try:
-                a = lentil.detector.pixelate(img.copy(), int(o))
-                b = lentil.rescale(lentil.detector.pixel(img.copy(), int(o)), 1 / int(o), order=3, mode='nearest', unitary=True)
+                a = lentil.detector.pixelate(mk_img(c), int(o))
+                b = lentil.rescale(lentil.detector.pixel(mk_img(c), int(o)), 1 / int(o), order=3, mode='nearest', unitary=True)
                 res['pixelate'] = [np.asarray(a).tolist(), np.asarray(b).tolist()]
             except Exception as e:
                 res['pixelate'] = {'err': type(e).__name__}
@@ -402,7 +571,9 @@ def circ_conv(img, h):
     return out
 
 
-def oracle(c, impl):
+def check_out(c, impl):
+    """the clauses that concern one call: shape, real non-negative values, total (jitter / smear), equality with the
+    circular convolution with the documented transfer function where that convolution is non-negative"""
     img = np.array(c['img'], dtype=float)
     m, n = img.shape
     if 'err' in impl:
@@ -418,32 +589,9 @@ def oracle(c, impl):
     if np.min(out) < 0:
         return f'negative output value {np.min(out)}'
     scale = 1 + float(np.max(np.abs(img)))
-    # commutation with circular translation
-    for s, r in zip(c.get('shifts', []), impl.get('rolled', [])):
-        if isinstance(r, dict):
-            return f'raised {r["err"]} on the image translated by {s}'
-        msg = arr_close(r, np.roll(out, tuple(s), axis=(0, 1)))
-        if msg:
-            return f'does not commute with the circular translation {s}: {msg}'
-    # zero extent is the identity
-    z = impl.get('zero')
-    if isinstance(z, dict):
-        return f'raised {z["err"]} at zero extent'
-    msg = arr_close(z, img)
-    if msg:
-        return f'zero extent is not the identity: {msg}'
-    # totals
     if c['op'] != 'pixel':
         if abs(float(np.sum(out)) - float(np.sum(img))) > TOL * m * n * scale:
             return f'total not kept: sum(img) = {np.sum(img)}, sum(out) = {np.sum(out)}'
-        sm = impl.get('samples')
-        if isinstance(sm, dict):
-            return f'raised {sm["err"]} with the extent given in samples'
-        msg = arr_close(sm, out)
-        if msg:
-            return (f'extent {c["ext"]} at pixel scale {c["ps"]}, oversampling {c["os"]} differs from the same extent '
-                    f'in samples: {msg}')
-    # equality with the circular convolution with the inverse transform of the documented transfer function
     T = transfer(c, m, n)
     if abs(T[0, 0] - 1) > 1e-12:
         return 'oracle transfer function has no unit gain (harness bug)'
@@ -466,6 +614,67 @@ def oracle(c, impl):
                     f'by more than the unpaired Nyquist contribution {bound:.3g}: {msg}')
         if abs(float(np.sum(out)) - tot) > TOL * m * n * scale + m * n * bound:
             return f'total not kept although the convolution is non-negative: {tot} -> {np.sum(out)}'
+    return None
+
+
+def describe(k):
+    return ', '.join(f'{a}={k[a]}' for a in ('op', 'ext', 'angle', 'ps', 'os') if a in k)
+
+
+def oracle_history(c, impl):
+    for i, (k, r, r0) in enumerate(zip(c['calls'], impl['seq'], impl['alone'])):
+        sub = dict(k, img=c['img'])
+        msg = check_out(sub, r)
+        if msg:
+            return f'call {i + 1} of the history ({describe(k)}): {msg}'
+        if 'err' in r0:
+            return f'call {i + 1} made alone ({describe(k)}) raised {r0["err"]}'
+        msg = arr_close(r['out'], r0['out'])
+        if msg:
+            return (f'call {i + 1} of the history ({describe(k)}) differs from the same call made first in a fresh '
+                    f'interpreter state: {msg}')
+    return None
+
+
+def oracle(c, impl):
+    if c['op'] == 'history':
+        return oracle_history(c, impl)
+    img = np.array(c['img'], dtype=float)
+    m, n = img.shape
+    msg = check_out(c, impl)
+    if msg:
+        return msg
+    out = np.asarray(impl['out'], dtype=float)
+    # commutation with circular translation
+    for s, r in zip(c.get('shifts', []), impl.get('rolled', [])):
+        if isinstance(r, dict):
+            return f'raised {r["err"]} on the image translated by {s}'
+        msg = arr_close(r, np.roll(out, tuple(s), axis=(0, 1)))
+        if msg:
+            return f'does not commute with the circular translation {s}: {msg}'
+    # the same call repeated after the translated ones
+    ag = impl.get('again')
+    if ag is not None:
+        if isinstance(ag, dict):
+            return f'raised {ag["err"]} when the call was repeated'
+        msg = arr_close(ag, out)
+        if msg:
+            return f'the same call repeated after other calls on the same shape gives another result: {msg}'
+    # zero extent is the identity
+    z = impl.get('zero')
+    if isinstance(z, dict):
+        return f'raised {z["err"]} at zero extent'
+    msg = arr_close(z, img)
+    if msg:
+        return f'zero extent is not the identity: {msg}'
+    if c['op'] != 'pixel':
+        sm = impl.get('samples')
+        if isinstance(sm, dict):
+            return f'raised {sm["err"]} with the extent given in samples'
+        msg = arr_close(sm, out)
+        if msg:
+            return (f'extent {c["ext"]} at pixel scale {c["ps"]}, oversampling {c["os"]} differs from the same extent '
+                    f'in samples: {msg}')
     # pixelate = pixel then rescale
     pz = impl.get('pixelate')
     if pz is not None:
